@@ -37,7 +37,15 @@ type Spec struct {
 	// Grown (bowl stage): the old file on disk is this many bytes longer than the old build's container says
 	// (a log or save file appended to after install); the overlay is computed against what is on disk
 	Grown int `json:"grown,omitempty"`
+	// Copies (direct stage), cyclic: write k is not a Write call but an io.Copy from a plain reader holding the
+	// same bytes (io.Copy picks whatever the writer offers: ReadFrom if it has one, Write calls of 32 KiB if not)
+	Copies []bool `json:"copies,omitempty"`
 }
+
+// plainReader hides every method but Read
+type plainReader struct{ r io.Reader }
+
+func (p plainReader) Read(b []byte) (int, error) { return p.r.Read(b) }
 
 func contents(s Spec) (old, nw []byte) {
 	total := 0
@@ -220,9 +228,19 @@ func check(s Spec) h.Result {
 		if pos+n > len(nw) {
 			n = len(nw) - pos
 		}
-		wn, err := ow.Write(nw[pos : pos+n])
-		if err != nil || wn != n {
-			return h.Result{Fail: fmt.Sprintf("Write of %d bytes at %d: n=%d err=%v", n, pos, wn, err), Classes: cl}
+		if len(s.Copies) > 0 && s.Copies[k%len(s.Copies)] {
+			cn, err := io.Copy(ow, plainReader{bytes.NewReader(nw[pos : pos+n])})
+			if err != nil || cn != int64(n) {
+				return h.Result{Fail: fmt.Sprintf("io.Copy of %d bytes at %d into the overlay writer: n=%d err=%v", n, pos, cn, err), Classes: cl}
+			}
+			if k > 0 {
+				cl = append(cl, "feed:io.Copy-after-other-writes")
+			}
+		} else {
+			wn, err := ow.Write(nw[pos : pos+n])
+			if err != nil || wn != n {
+				return h.Result{Fail: fmt.Sprintf("Write of %d bytes at %d: n=%d err=%v", n, pos, wn, err), Classes: cl}
+			}
 		}
 		pos += n
 		a := 0
@@ -413,6 +431,9 @@ var prop = h.Prop[Spec]{
 		s.Actions = rapid.SliceOfN(rapid.SampledFrom([]int{0, 0, 1, 2, 3}), 1, 6).Draw(t, "actions")
 		if rapid.IntRange(0, 3).Draw(t, "pre-actions") == 0 {
 			s.Pre = rapid.SliceOfN(rapid.SampledFrom([]int{1, 2, 3}), 1, 3).Draw(t, "pre")
+		}
+		if rapid.IntRange(0, 2).Draw(t, "some-writes-by-io.Copy") == 0 {
+			s.Copies = rapid.SliceOfN(rapid.Bool(), 1, 5).Draw(t, "copies")
 		}
 		if rapid.IntRange(0, 3).Draw(t, "old-grown-on-disk") == 0 {
 			s.Grown = rapid.OneOf(rapid.IntRange(1, 100), rapid.IntRange(1, 200*1024)).Draw(t, "grown")
